@@ -5,7 +5,8 @@ def replay_pack(tags, lengths, encoding, values=None, cfg=None):
     cfgs = None
     car = [48, 62, 123, 124, 125]
     if cfg in ('de62-plain', 'reconfigured'):
-        cfgs = copy.deepcopy(config['bit_config'])
+        from . import packaged
+        cfgs = packaged.bit_config_copy()
         if cfg == 'reconfigured':
             iso8583.dumps({'MTI': '1240', 'PDS0001': 'A' * 600, 'PDS0002': 'B' * 600}, iso_config=cfgs)
         del cfgs['62']['field_processor']
